@@ -39,6 +39,9 @@ pub struct CrashStats {
     second_crash_points: u64,
     #[serde(default)]
     second_recoveries: u64,
+    /// store-level crash enumeration (c13::part_crash)
+    #[serde(default)]
+    store: Option<super::c13::PartCrash>,
 }
 
 fn copy_dir(from: &Path, to: &Path) {
@@ -82,6 +85,9 @@ fn victims(thorough: bool) -> Vec<(String, Vec<Step>, Step)> {
     }
     v
 }
+
+/// histories added to both tiers (M11 = W + 1 empty blocks)
+const EXTRA_BOTH: &[&[&str]] = &[&["B(set0=1)", "M11", "B(set0=1)", "C"], &["C", "M11", "B(set0=1)", "C"]];
 
 /// length-3 histories added to the quick tier
 const EXTRA_QUICK: &[&[&str]] = &[&["C", "B(set0=1)", "B(set1=2)"], &["C", "B(set0=1)", "M1"]];
@@ -160,12 +166,19 @@ pub fn worker(tier: &str, shard: u64, nshards: u64, budget_s: f64) -> CrashStats
         prefixes.extend(next.iter().filter(|p| p.iter().any(|i| alpha[*i].0 == "C")).cloned());
         cur = next;
     }
+    // macros that only occur in the explicit histories below (not enumerated)
+    alpha.push((format!("M{}", W + 1), vec![Step::Mine(W + 1)]));
     if !thorough {
         // two uncommitted blocks above the last commit, so that a reorg victim has a target strictly
         // between the committed and the current height (the thorough tier has all length-3 histories)
         for extra in EXTRA_QUICK {
             prefixes.push(extra.iter().map(|n| alpha.iter().position(|a| a.0 == *n).expect("alphabet")).collect());
         }
+    }
+    // a key rewritten after more than W blocks: rolling the second write back leaves a history that is
+    // old at the target, which commit *deletes* (both tiers)
+    for extra in EXTRA_BOTH {
+        prefixes.push(extra.iter().map(|n| alpha.iter().position(|a| a.0 == *n).expect("alphabet")).collect());
     }
     let base = start_with_s();
     let mut refi = Inst::fresh();
@@ -435,6 +448,15 @@ pub fn worker(tier: &str, shard: u64, nshards: u64, budget_s: f64) -> CrashStats
             }
         }
     }
+    // store level: the same question asked of the two table components alone, over deeper operation
+    // sequences than the engine-level histories can afford
+    let store_deadline = Instant::now() + std::time::Duration::from_secs_f64(if thorough { 300.0 } else { 12.0 });
+    let pc = super::c13::part_crash(if thorough { 4 } else { 2 }, shard, nshards, store_deadline);
+    if let Some((e, j)) = &pc.violation {
+        st.violations.push(Violation { property: "C04".into(), kind: "store-not-recovered-by-rollback".into(), scenario: "crash-store".into(), start: "empty tables".into(), path: vec![j["ops"].as_str().unwrap_or("").to_string(), j["victim"].as_str().unwrap_or("").to_string()], steps: vec![], detail: e.clone() });
+    }
+    st.errors.extend(pc.errors.iter().cloned());
+    st.store = Some(pc);
     st
 }
 
@@ -462,6 +484,15 @@ pub fn run(tier: &str, seed: u64) -> i32 {
                 total.recoveries += st.recoveries;
                 total.lost_only_uncommitted += st.lost_only_uncommitted;
                 total.first_level_incomplete |= st.first_level_incomplete;
+                if let Some(pc) = st.store {
+                    let t = total.store.get_or_insert_with(|| super::c13::PartCrash { complete: true, ..Default::default() });
+                    t.states = t.states.max(pc.states);
+                    t.depth = t.depth.max(pc.depth);
+                    t.victims += pc.victims;
+                    t.crash_points += pc.crash_points;
+                    t.cases += pc.cases;
+                    t.complete &= pc.complete;
+                }
                 total.second_crash_points += st.second_crash_points;
                 total.second_recoveries += st.second_recoveries;
                 for (k, v) in st.reopened_heights {
@@ -485,19 +516,20 @@ pub fn run(tier: &str, seed: u64) -> i32 {
     let mut ev = Evidence::new("C04", tier, seed, "fault_enumeration");
     ev.coverage = json!({
         "evaluations": total.cases, "distinct_nontrivial": total.crash_points,
-        "rule": "histories = every sequence of length <= 2 (quick; plus [C, B(set0=1), B(set1=2)] and [C, B(set0=1), M1]) / 3 (thorough) over {B(set0=1), B(set1=2), M1, M(W-1), C, R-1, R-2} that contains a successful commit, followed by a victim in {commit, reorg 1 / 2 / W blocks back, finalise of a one-transaction block}; for each history the victim's persistent writes are counted and a crash (panic in front of the write, all handles dropped, directory reopened) is placed before each one and after the last; each (history, crash point, eligible recovery height) is one case. distinct_nontrivial = crash points",
+        "rule": "histories = every sequence of length <= 2 (quick; plus [C, B(set0=1), B(set1=2)] and [C, B(set0=1), M1]) / 3 (thorough), plus [B(set0=1), M11, B(set0=1), C] and [C, M11, B(set0=1), C] in both tiers, over {B(set0=1), B(set1=2), M1, M(W-1), C, R-1, R-2} that contains a successful commit, followed by a victim in {commit, reorg 1 / 2 / W blocks back, finalise of a one-transaction block}; for each history the victim's persistent writes are counted and a crash (panic in front of the write, all handles dropped, directory reopened) is placed before each one and after the last; each (history, crash point, eligible recovery height) is one case. distinct_nontrivial = crash points",
         "samples": total.samples.iter().take(6).collect::<Vec<_>>(),
         "histories": total.histories, "histories_without_victim_writes": total.histories_skipped, "crash_points": total.crash_points, "recovered_cases": total.recoveries,
         "non_commit_victims_lost_only_uncommitted": total.lost_only_uncommitted,
         "second_crash": {"rule": "for every first crash point of ([C], victim C) and ([C], victim finalise) (quick — a smoke-level sub-bound: one case costs two re-opens of 28 RocksDB instances; first recovery height, second recovery to the same height) / of every history and victim (thorough; every recovery height, second recovery to the same and to the lowest eligible height, plus one more block): a second crash in front of every persistent write of the recovery reorg, reopen, reorg again", "crash_points_inside_recovery": total.second_crash_points, "recovered_after_second_crash": total.second_recoveries},
         "heights_at_reopen": total.reopened_heights, "crash_sites": total.sites, "victims": total.victims,
+        "store_level": total.store.as_ref().map(|t| json!({"rule": "BFS over {Set(10,1), Set(10,2), Unset(10), Set(20,1), Next, Skip(W-1 blocks), Commit, Rollback(1)} to depth 2 (quick) / 4 (thorough) from the empty tables and from three seeds in which a key is rewritten more than W blocks after its previous version; in every distinct state each victim in {commit, rollback by 1, rollback by 2} is crashed in front of each of its persistent writes on BlockCachedDatabase + BlockDatabase (real RocksDB), the tables are reopened and rolled back to every eligible block (committed before the crash, not above the victim's target, within W of the highest block), and point reads, range scans, full scan, version cap and the block table are compared with the reference map truncated at that block", "distinct_states": t.states, "depth_completed": t.depth, "victims": t.victims, "crash_points": t.crash_points, "cases": t.cases, "complete": t.complete})),
         "exhaustive": total.complete, "first_level_exhaustive": !total.first_level_incomplete, "machinery_errors": errors,
     });
     ev.assumptions = vec!["crash model of the statement: the process dies between two RocksDB calls; RocksDB's WAL makes exactly the completed writes visible on reopen; torn or unsynced writes after power loss are outside the property".into()];
     ev.violations = new.len() as i64;
     ev.wall_s = t0.elapsed().as_secs_f64();
     ev.write();
-    println!("C04 {}: histories={} (skipped {}), crash points={}, cases={}, recovered={}, second crash points={} recovered={}, first level complete={}, complete={}, wall={:.1}s", tier, total.histories, total.histories_skipped, total.crash_points, total.cases, total.recoveries, total.second_crash_points, total.second_recoveries, !total.first_level_incomplete, total.complete, ev.wall_s);
+    println!("C04 {}: histories={} (skipped {}), crash points={}, cases={}, recovered={}, second crash points={} recovered={}, first level complete={}, store-level crash points={} cases={}, complete={}, wall={:.1}s", tier, total.histories, total.histories_skipped, total.crash_points, total.cases, total.recoveries, total.second_crash_points, total.second_recoveries, !total.first_level_incomplete, total.store.as_ref().map(|t| t.crash_points).unwrap_or(0), total.store.as_ref().map(|t| t.cases).unwrap_or(0), total.complete, ev.wall_s);
     crate::inst::cleanup_scratch();
     let mut seen = std::collections::BTreeSet::new();
     for (id, _) in &known {
